@@ -18,6 +18,8 @@ type mergeCtx struct {
 	pc        *Term
 	work      [][]bool
 	paths     int
+	region    bool
+	cells     map[*Value]bool
 }
 
 const maxMergePaths = 256
@@ -139,4 +141,261 @@ func (e *Exec) summarize(caller *frame, fn *ssa.Function, args []Value) (res Val
 	}
 	e.run.noteSummary(len(results))
 	return acc, true
+}
+
+// ---------- region merging (if-conversion of effect-free diamonds) ----------
+//
+// At an If on a symbolic condition whose region up to the immediate post-dominator J is free of
+// effects, all paths of the region are executed without the solver (effects forbidden; any
+// store to a pre-existing cell, allocation that could escape through a store, defer, panic or
+// impure intrinsic aborts the attempt and the engine forks as usual) and the values reaching
+// the phis of J are merged into ite-terms.
+
+// ipdom returns the immediate post-dominator of b in its function (nil: the virtual exit).
+func (r *harnessRun) ipdom(b *ssa.BasicBlock) *ssa.BasicBlock {
+	fn := b.Parent()
+	r.pureMu.Lock()
+	defer r.pureMu.Unlock()
+	if r.pdom == nil {
+		r.pdom = map[*ssa.Function][]*ssa.BasicBlock{}
+	}
+	tab, ok := r.pdom[fn]
+	if !ok {
+		tab = computeIpdom(fn)
+		r.pdom[fn] = tab
+	}
+	return tab[b.Index]
+}
+
+func computeIpdom(fn *ssa.Function) []*ssa.BasicBlock {
+	n := len(fn.Blocks)
+	// pdom sets as bitsets over n+1 nodes (n = virtual exit)
+	words := (n + 1 + 63) / 64
+	full := make([]uint64, words)
+	for i := 0; i <= n; i++ {
+		full[i/64] |= 1 << uint(i%64)
+	}
+	sets := make([][]uint64, n+1)
+	for i := 0; i < n; i++ {
+		sets[i] = append([]uint64{}, full...)
+	}
+	sets[n] = make([]uint64, words)
+	sets[n][n/64] |= 1 << uint(n%64)
+	succs := func(i int) []int {
+		b := fn.Blocks[i]
+		if len(b.Succs) == 0 {
+			return []int{n}
+		}
+		var out []int
+		for _, s := range b.Succs {
+			out = append(out, s.Index)
+		}
+		return out
+	}
+	for changed := true; changed; {
+		changed = false
+		for i := n - 1; i >= 0; i-- {
+			nw := append([]uint64{}, full...)
+			for _, s := range succs(i) {
+				for w := range nw {
+					nw[w] &= sets[s][w]
+				}
+			}
+			nw[i/64] |= 1 << uint(i%64)
+			for w := range nw {
+				if nw[w] != sets[i][w] {
+					changed = true
+				}
+			}
+			sets[i] = nw
+		}
+	}
+	has := func(set []uint64, i int) bool { return set[i/64]&(1<<uint(i%64)) != 0 }
+	count := func(set []uint64) int {
+		c := 0
+		for i := 0; i <= n; i++ {
+			if has(set, i) {
+				c++
+			}
+		}
+		return c
+	}
+	out := make([]*ssa.BasicBlock, n)
+	for i := 0; i < n; i++ {
+		// the immediate post-dominator is the strict post-dominator with the largest pdom set
+		best, bestC := -1, -1
+		for j := 0; j <= n; j++ {
+			if j != i && has(sets[i], j) {
+				if c := count(sets[j]); c > bestC {
+					best, bestC = j, c
+				}
+			}
+		}
+		if best >= 0 && best < n {
+			out[i] = fn.Blocks[best]
+		}
+	}
+	return out
+}
+
+// registerCells records every cell of a value allocated inside a merge region (stores to them are allowed).
+func (m *mergeCtx) registerCells(p *Value) {
+	if m.cells == nil {
+		m.cells = map[*Value]bool{}
+	}
+	w := newWalker()
+	w.cell = func(c *Value) { m.cells[c] = true }
+	w.seenP[p] = true
+	m.cells[p] = true
+	w.walkInner(*p)
+}
+
+func mergeValues(c *Term, a, b Value) (Value, bool) {
+	if ta, ok := a.(*Term); ok {
+		if tb, ok := b.(*Term); ok && ta.S == tb.S && ta.W == tb.W {
+			return iteT(c, ta, tb), true
+		}
+		return nil, false
+	}
+	if sameValue(a, b) {
+		return a, true
+	}
+	if sa, ok := a.(Structure); ok {
+		sb, ok := b.(Structure)
+		if !ok || len(sa) != len(sb) {
+			return nil, false
+		}
+		out := make(Structure, len(sa))
+		for i := range sa {
+			v, ok := mergeValues(c, sa[i], sb[i])
+			if !ok {
+				return nil, false
+			}
+			out[i] = v
+		}
+		return out, true
+	}
+	if ta, ok := a.(Tuple); ok {
+		tb, ok := b.(Tuple)
+		if !ok || len(ta) != len(tb) {
+			return nil, false
+		}
+		out := make(Tuple, len(ta))
+		for i := range ta {
+			v, ok := mergeValues(c, ta[i], tb[i])
+			if !ok {
+				return nil, false
+			}
+			out[i] = v
+		}
+		return out, true
+	}
+	return nil, false
+}
+
+// mergeRegion tries to if-convert the region starting at the If that ends fr.block.
+func (fr *frame) mergeRegion(cond *Term, j *ssa.BasicBlock) (ok bool) {
+	e := fr.e
+	start, origPrev := fr.block, fr.prev
+	savedSteps := e.steps
+	var phis []*ssa.Phi
+	for _, instr := range j.Instrs {
+		if phi, isPhi := instr.(*ssa.Phi); isPhi {
+			phis = append(phis, phi)
+		} else {
+			break
+		}
+	}
+	type res struct {
+		pc   *Term
+		vals []Value
+	}
+	var results []res
+	defer func() {
+		e.merge = nil
+		if r := recover(); r != nil {
+			switch r.(type) {
+			case mergeAbort, goPanic, staleRead:
+				fr.block, fr.prev = start, origPrev
+				e.steps = savedSteps
+				ok = false
+			default:
+				panic(r)
+			}
+		}
+	}()
+	ctx := &mergeCtx{work: [][]bool{{}}, region: true}
+	for len(ctx.work) > 0 {
+		d := ctx.work[len(ctx.work)-1]
+		ctx.work = ctx.work[:len(ctx.work)-1]
+		ctx.decisions, ctx.pos, ctx.pc = d, 0, tTrue
+		ctx.paths++
+		if ctx.paths > 64 {
+			panic(mergeAbort{"too many paths"})
+		}
+		e.merge = ctx
+		take := e.mergeBranch(cond)
+		fr.prev = start
+		if take {
+			fr.block = start.Succs[0]
+		} else {
+			fr.block = start.Succs[1]
+		}
+		guard := 0
+		for fr.block != j {
+			guard++
+			if guard > 200 {
+				panic(mergeAbort{"region too long"})
+			}
+			fr.runBlockMerge()
+		}
+		idx := -1
+		for i, p := range j.Preds {
+			if p == fr.prev {
+				idx = i
+			}
+		}
+		vals := make([]Value, len(phis))
+		for k, phi := range phis {
+			vals[k] = fr.get(phi.Edges[idx])
+		}
+		results = append(results, res{ctx.pc, vals})
+	}
+	e.merge = nil
+	merged := make([]Value, len(phis))
+	for k := range phis {
+		acc := results[len(results)-1].vals[k]
+		for i := len(results) - 2; i >= 0; i-- {
+			v, okm := mergeValues(results[i].pc, results[i].vals[k], acc)
+			if !okm {
+				panic(mergeAbort{"values of different shape reach the join"})
+			}
+			acc = v
+		}
+		merged[k] = acc
+	}
+	for k, phi := range phis {
+		fr.env[phi] = merged[k]
+	}
+	fr.prev, fr.block = start, j
+	fr.skipPhis = true
+	e.run.noteSummary(len(results))
+	return true
+}
+
+// runBlockMerge executes one basic block of the region being merged.
+func (fr *frame) runBlockMerge() {
+	fr.executePhis()
+	for _, instr := range fr.block.Instrs {
+		if _, ok := instr.(*ssa.Phi); ok {
+			continue
+		}
+		fr.e.steps++
+		switch fr.visit(instr) {
+		case kReturn:
+			panic(mergeAbort{"return inside region"})
+		case kJump:
+			return
+		}
+	}
 }
